@@ -13,6 +13,7 @@ import (
 	"sync"
 	"time"
 
+	dtlsstate "github.com/pion/dtls/v3/internal/state"
 	"github.com/pion/dtls/v3/pkg/protocol/recordlayer"
 )
 
@@ -170,6 +171,8 @@ func (d *dataSess) settle(timeout time.Duration) bool {
 }
 
 func (d *dataSess) close() { d.r.closeAll() }
+
+func commonOf(c *Conn) *dtlsstate.Common { return dtlsstate.CommonState(c.state) }
 
 func (r *vRecorder) snapshotEv(ev string) []vEvent {
 	r.mu.Lock()
